@@ -202,6 +202,17 @@ def check_nav(c, st):
         elif c.get('prep') == 'navigated':
             b = uu.URL(base).navigate('')
             base = b.to_text()
+        elif c.get('prep') in ('edit-query', 'clear-query', 'edit-fragment'):
+            # a base whose owner changed its query / fragment after parsing it: the base is what it now reads
+            if c['prep'] == 'edit-query':
+                b.query_params['zz-added'] = '1'
+                for k in list(b.query_params.keys())[:1]:
+                    b.query_params[k] = 'zz-changed'
+            elif c['prep'] == 'clear-query':
+                b.query_params.clear()
+            else:
+                b.fragment = 'zz-new-fragment'
+            base = b.to_text()
         before = b.to_text()
         attrs_before = {a: getattr(b, a) for a in ('scheme', 'username', 'password', 'host', 'port',
                                                    'path_parts', 'fragment')}
@@ -367,6 +378,9 @@ def check_nav(c, st):
             chain2.append(cur2.to_text())
     except Exception as e:
         return ('navigate-raised:%s:second-pass' % type(e).__name__, 'second pass of %r from %r raised %r' % (refs, base, e))
+    if snap(b) != kept[0][1]:
+        return ('base-modified:by-editing-a-result', 'the base %r of navigate%r reads %r after the caller edited the URLs that '
+                'navigate() returned' % (kept[0][1][0], tuple(refs), b.to_text()))
     if chain2 != chain:
         return ('navigate:result-shared-between-calls', 'navigate%r from %r gave %r; after the caller edited those '
                 'results the same navigations give %r' % (tuple(refs), base, chain, chain2))
@@ -450,6 +464,8 @@ BASES = ['http://host', 'http://host/', 'http://host/a', 'http://host/a/', 'http
          'http://\u2102afe.example/a/b/c', 'http://\uff21\uff22.example/a/b', 'http://\u0130stanbul.example/a/',
          'http://\u2122.example/x/y', 'http://\U0001d400b.example/a/b/c', 'http://\u01c5.example/p', 'http://\ufb01.example/a/b']
 SEGS = ['.', '..', '', 'a', 'b']
+# segments that contain a quoted slash: one segment, whatever the characters in it look like
+QSEGS = ['a%2Fb', 'b%2F..', '..%2Fa', 'a%2F', '%2F']
 
 
 def gen_ref(r, maxseg=8):
@@ -460,7 +476,7 @@ def gen_ref(r, maxseg=8):
         path = ''
     else:
         n = r.randint(1, maxseg)
-        segs = [r.choice(SEGS + ['c', 'g;x=1', '..a', 'a.', '...']) for _ in range(n)]
+        segs = [r.choice(SEGS + ['c', 'g;x=1', '..a', 'a.', '...'] + (QSEGS if k * 1000 % 1 < 0.15 else [])) for _ in range(n)]
         path = '/'.join(segs)
         if k < 0.4:
             path = '/' + path
@@ -495,7 +511,7 @@ def gen(r):
     if c['ref_as_url'] and r.random() < 0.6:
         c['ref_prep'] = r.choice(['normalize', 'normalize', 'navigated', 'from_parts'])
     if r.random() < 0.3:
-        c['prep'] = r.choice(['normalize', 'navigated'])
+        c['prep'] = r.choice(['normalize', 'navigated', 'edit-query', 'clear-query', 'edit-fragment'])
     if r.random() < 0.3:
         c['siblings'] = [gen_ref(r, 4) for _ in range(r.randint(1, 3))]
     return c
